@@ -1121,7 +1121,25 @@ impl Zoned {
     /// ```
     #[inline]
     pub fn start_of_day(&self) -> Result<Zoned, Error> {
-        self.datetime().start_of_day().to_zoned(self.time_zone().clone())
+        let midnight = self.datetime().start_of_day();
+        let start = midnight.to_zoned(self.time_zone().clone())?;
+        // When midnight falls in a gap, the above gives us midnight shifted
+        // forward by the length of the gap. That is the first instant of this
+        // day only if the gap begins precisely at midnight. If the gap begins
+        // before midnight, then the first instant of this day is the end of
+        // the gap, i.e., the time zone transition itself.
+        if start.datetime() == midnight {
+            return Ok(start);
+        }
+        let mut first = start.timestamp();
+        for trans in self.time_zone().preceding(start.timestamp()) {
+            let dt = self.time_zone().to_datetime(trans.timestamp());
+            if dt.date() != midnight.date() {
+                break;
+            }
+            first = trans.timestamp();
+        }
+        Ok(first.to_zoned(self.time_zone().clone()))
     }
 
     /// Returns the end of the day, corresponding to `23:59:59.999999999` civil
